@@ -141,7 +141,11 @@ fn abs_entry(spec: &str, e: &Entry, pm: Option<&ParsedMod>, it: &mut Intern, fin
                   Sx::L(mut v) => v.remove(0),
                   x => x,
                 };
-                Sx::L(vec![dsx, Sx::b(dep_is_asset(d))])
+                // per-dependency flags: is_asset and the source-phase referrer (the specifier range of the
+                // first source-phase import), as visit_module_dependencies computes them
+                let sp = d.imports.iter().find_map(|i| i.kind.is_source_phase().then(|| i.specifier_range.clone()));
+                let sp_sx = Sx::opt(sp.map(|r| Sx::A(it.misc(&range_str(&r)))));
+                Sx::L(vec![dsx, Sx::L(vec![Sx::b(dep_is_asset(d)), sp_sx])])
               })
               .collect(),
           );
